@@ -219,7 +219,7 @@ func evalSeq(cs *Case, withIsolation bool) *caseResult {
 
 	// keys never share a budget, checked without the model: the decisions
 	// for one key must not change when all other keys' events are removed.
-	if withIsolation && len(res.Violations) == 0 {
+	if withIsolation {
 		cnt := map[string]int{}
 		for i := range infos {
 			cnt[infos[i].Key]++
@@ -456,6 +456,104 @@ func evalConc(cs *Case) *caseResult {
 	res.Fingerprint = fmt.Sprintf("conc|src=%d|%s|%s", cs.Sources, cfgShape(&cs.Cfg), strings.Join(bs, ","))
 	if cs.Seed%31 == 0 || len(res.Violations) > 0 {
 		res.Sample = sampleOf(cs, dec, infos)
+	}
+	return res
+}
+
+// evalMulti: two throttle actions in one pipeline must decide like the same
+// two actions in two pipelines of their own (second fed with what the first
+// let through) — real code against real code — and like two independent
+// reference models.
+func evalMulti(cs *Case) *caseResult {
+	res := &caseResult{Seed: cs.Seed, Clause: "multi", Counters: map[string]int64{}}
+	fail := func(err error) *caseResult {
+		if err == errWatchdog || err == errRefused {
+			res.Inconclusive = firstWords(err.Error(), 1)
+		} else {
+			res.Inconclusive = "config-refused"
+			fmt.Println("config refused:", err, string(cs.actions()))
+		}
+		return res
+	}
+	both, _, err := runSeq(cs, nil)
+	if err != nil {
+		return fail(err)
+	}
+	onlyA := *cs
+	onlyA.Cfg2 = nil
+	dA, _, err := runSeq(&onlyA, nil)
+	if err != nil {
+		return fail(err)
+	}
+	onlyB := *cs
+	onlyB.Cfg, onlyB.Cfg2 = *cs.Cfg2, nil
+	dB, _, err := runSeq(&onlyB, func(e *Ev) bool { return dA[e.Idx] })
+	if err != nil {
+		return fail(err)
+	}
+	mA, mB := newModel(&cs.Cfg), newModel(cs.Cfg2)
+	nPass, nRejA, nRejB, sameBudget := 0, 0, 0, 0
+	reportedReal, reportedModel := false, false
+	for si := range cs.Steps {
+		st := &cs.Steps[si]
+		for ei := range st.Evs {
+			e := &st.Evs[ei]
+			want := dA[e.Idx] && dB[e.Idx]
+			ia := mA.step(e, st.Now, true)
+			mwant := ia.Explains
+			var ib evInfo
+			if mwant {
+				ib = mB.step(e, st.Now, true)
+				mwant = ib.Explains
+				if ia.Rule == ib.Rule {
+					sameBudget++
+				}
+			}
+			switch {
+			case want:
+				nPass++
+			case !dA[e.Idx]:
+				nRejA++
+			default:
+				nRejB++
+			}
+			wit := func() map[string]any {
+				raw := e.Raw
+				if len(raw) > 300 {
+					raw = raw[:300] + "…"
+				}
+				return map[string]any{"case_seed": cs.Seed, "clause": "multi", "actions_json": string(cs.actions()),
+					"event": raw, "event_idx": e.Idx, "now": st.Now, "one_pipeline_passed": both[e.Idx],
+					"separate_pipelines_first_passed": dA[e.Idx], "separate_pipelines_second_passed": dB[e.Idx],
+					"model_first": ia, "model_second": ib}
+			}
+			if both[e.Idx] != want && !reportedReal {
+				reportedReal = true
+				res.Violations = append(res.Violations, viol{
+					Sig:     "multi: two throttle actions in one pipeline decide differently from the same two actions in separate pipelines (budgets shared between actions)",
+					What:    fmt.Sprintf("event %d: passed=%v through [throttle A, throttle B] in one pipeline, but A alone passed=%v and B alone (fed with A's output) passed=%v", e.Idx, both[e.Idx], dA[e.Idx], dB[e.Idx]),
+					Witness: wit(),
+				})
+			}
+			if want != mwant && !reportedModel {
+				reportedModel = true
+				res.Violations = append(res.Violations, viol{
+					Sig:     "multi: a throttle action alone in its pipeline deviates from the reference model",
+					What:    fmt.Sprintf("event %d: separate pipelines passed=%v, models passed=%v", e.Idx, want, mwant),
+					Witness: wit(),
+				})
+			}
+		}
+	}
+	res.count("events", int64(cs.NEvents))
+	res.count("events_passed", int64(nPass))
+	res.count("events_discarded_by_first", int64(nRejA))
+	res.count("events_discarded_by_second", int64(nRejB))
+	res.count("events_same_rule_index_in_both", int64(sameBudget))
+	res.Nontrivial = nPass > 0 && nRejA > 0 && nRejB > 0
+	res.Fingerprint = "multi|" + cfgShape(&cs.Cfg) + "|" + cfgShape(cs.Cfg2)
+	if len(res.Violations) > 0 {
+		res.Sample = map[string]any{"clause": "multi", "case_seed": cs.Seed, "actions_json": string(cs.actions())}
 	}
 	return res
 }
